@@ -319,7 +319,8 @@ prop(
     groups=[(["./pipeline"], r"^(\(\*Batch\)\.ForEach|\(\*Event\)\.reset)$"),
             (["./plugin/output/elasticsearch"], r"^\(\*Plugin\)\.(sendSplit|appendIndexName|appendEvent|out|out\$1|Start|Start\$1)$"),
             (["./plugin/output/http", "./pipeline"], r"^\(\*Plugin\)\.(sendSplit|out|out\$1)$"),
-            (["./plugin/output/kafka", "./pipeline"], r"^\(\*Plugin\)\.(out|out\$1)$")],
+            (["./plugin/output/kafka", "./pipeline"], r"^\(\*Plugin\)\.(out|out\$1)$"),
+            (["./plugin/output/gelf"], r"^\(\*Plugin\)\.formatExtraField$")],
     known_canaries=[("./plugin/output/elasticsearch", "replay/C19/zz_replay_c19_test.go", "TestVerifReplayC19IndexName")],
     claim=(
         "Proved: Batch.ForEach calls the callback for exactly the non-parent events, in index order (per-iteration obligation); Elasticsearch sendSplit and the http output's sendSplit (split_batch), for every pattern of failing / 413 / successful requests (DoTimeout is an arbitrary environment), "
@@ -329,6 +330,7 @@ prop(
         "begin[n] = old end of the buffer, buffer grows, last byte is a newline; ES appendEvent: action line + document line, each newline-terminated), the end offset is appended after the loop, and the call of sendSplit(0, eventsCount, begin, outBuf) "
         "meets sendSplit's precondition (right < len(begin), entries nondecreasing and within the buffer) - so the proven tiling applies to the table the plugin really builds. "
         "Kafka output: the callback fills record slot i and advances i by one; exactly the first i slots are produced (never a slot left over from an earlier, larger batch). "
+        "GELF: every byte formatExtraField appends to an extra-field name is an ASCII letter, digit, '_', '-' or '.', for every event key. "
         "KNOWN FINDING (open): appendIndexName splices the event's index field value into the action line unescaped."
     ),
     undecided=[
